@@ -48,6 +48,10 @@ typedef struct tk {
 	/* datagrams */
 	int        dg_sent, dg_recv;
 	size_t     dg_len[64];
+	int        dg_bound;            /* receiver and two senders are bound sockets with names of different length */
+	int        peer2;
+	char       dg_name[2][64];
+	uint8_t    dg_from[64];
 	/* accept */
 	int        conn_made, conn_accepted;
 	int        lfd;
@@ -239,7 +243,6 @@ static int stream_cb(tp_task_p tptask, int error, io_buf_p buf, uint32_t eof, si
 /* ------------------------------------------------------------------ datagram / accept / connect callbacks */
 static int dgram_cb(tp_task_p tptask, int error, struct sockaddr_storage *addr, io_buf_p buf, size_t transfered_size, void *udata) {
 	tk *t = udata;
-	(void)addr;
 	if (cb_common_entry(t, "datagram")) return TP_TASK_CB_NONE;
 	if (tptask != t->task || buf != &t->buf) { sim_violation("io-bad-arg", "task %d: callback received another task/buffer", t->slot); return TP_TASK_CB_NONE; }
 	if (error == ETIMEDOUT) {
@@ -252,6 +255,20 @@ static int dgram_cb(tp_task_p tptask, int error, struct sockaddr_storage *addr, 
 	if (t->dg_recv >= t->dg_sent) { sim_violation("io-data", "task %d: datagram #%d delivered but only %d were sent", t->slot, t->dg_recv, t->dg_sent); return TP_TASK_CB_NONE; }
 	if (transfered_size != t->dg_len[t->dg_recv]) { sim_violation("io-count", "task %d: datagram #%d reported with %zu bytes, %zu were sent", t->slot, t->dg_recv, transfered_size, t->dg_len[t->dg_recv]); return TP_TASK_CB_NONE; }
 	if (buf->offset != t->last_off + transfered_size) { sim_violation("io-count", "task %d: datagram of %zu bytes moved the buffer offset from %zu to %zu", t->slot, transfered_size, t->last_off, buf->offset); return TP_TASK_CB_NONE; }
+	if (t->dg_bound) {
+		/* each datagram comes with the address of ITS sender (path names: the kernel hands them over NUL terminated) */
+		const struct sockaddr_un *su = (const struct sockaddr_un *)(const void *)addr;
+		const char *want = t->dg_name[t->dg_from[t->dg_recv]];
+		if (!addr || su->sun_family != AF_UNIX || 0 != strncmp(su->sun_path, want, sizeof(su->sun_path))) {
+			size_t gl = 0, common = 0;
+			if (addr) { gl = strnlen(su->sun_path, sizeof(su->sun_path)); while (common < gl && want[common] && want[common] == su->sun_path[common]) common++; }
+			/* (no names in the message: they contain the process id) */
+			sim_violation("io-dgram-addr", "task %d: datagram #%d came from sender %d (address of %zu bytes) but was delivered with %s (%zu bytes, the first %zu agree)", t->slot, t->dg_recv, t->dg_from[t->dg_recv], strlen(want),
+			    addr ? "another peer address" : "no peer address", gl, common);
+			return TP_TASK_CB_NONE;
+		}
+		sim_probe("c16.dgram_addr_checked");
+	}
 	for (size_t i = 0; i < transfered_size; i++)
 		if (buf->data[t->last_off + i] != pay(t->slot, (size_t)t->dg_recv * 257u + i)) { sim_violation("io-data", "task %d: datagram #%d byte %zu wrong", t->slot, t->dg_recv, i); return TP_TASK_CB_NONE; }
 	t->dg_recv++;
@@ -485,6 +502,32 @@ static void op_task(const item_t *it) {
 		if (0 != socketpair(AF_UNIX, SOCK_STREAM | SOCK_NONBLOCK | SOCK_CLOEXEC, 0, sv)) { sim_violation("sim-limit", "socketpair failed"); return; }
 		break;
 	case K_DGRAM:
+		if (item_get(it, "dgb", 0)) {
+			/* unconnected: a bound receiver and two bound senders whose addresses differ in length */
+			struct sockaddr_un sa;
+			char rname[64];
+			int ok = 1, u = g_uniq++;
+			t->dg_bound = 1;
+			snprintf(rname, sizeof(rname), "/tmp/lcbsim-%d-%d-r", (int)getpid(), u);
+			snprintf(t->dg_name[0], sizeof(t->dg_name[0]), "/tmp/lcbsim-%d-%d-a", (int)getpid(), u);
+			snprintf(t->dg_name[1], sizeof(t->dg_name[1]), "/tmp/lcbsim-%d-%d-a-much-longer-sender-name", (int)getpid(), u);
+			sv[0] = socket(AF_UNIX, SOCK_DGRAM | SOCK_NONBLOCK | SOCK_CLOEXEC, 0);
+			sv[1] = socket(AF_UNIX, SOCK_DGRAM | SOCK_NONBLOCK | SOCK_CLOEXEC, 0);
+			t->peer2 = socket(AF_UNIX, SOCK_DGRAM | SOCK_NONBLOCK | SOCK_CLOEXEC, 0);
+			memset(&sa, 0, sizeof(sa)); sa.sun_family = AF_UNIX;
+			snprintf(sa.sun_path, sizeof(sa.sun_path), "%s", rname); unlink(rname);
+			ok = ok && sv[0] >= 0 && 0 == bind(sv[0], (struct sockaddr *)&sa, sizeof(sa));
+			snprintf(sa.sun_path, sizeof(sa.sun_path), "%s", t->dg_name[0]); unlink(t->dg_name[0]);
+			ok = ok && sv[1] >= 0 && 0 == bind(sv[1], (struct sockaddr *)&sa, sizeof(sa));
+			snprintf(sa.sun_path, sizeof(sa.sun_path), "%s", t->dg_name[1]); unlink(t->dg_name[1]);
+			ok = ok && t->peer2 >= 0 && 0 == bind(t->peer2, (struct sockaddr *)&sa, sizeof(sa));
+			snprintf(sa.sun_path, sizeof(sa.sun_path), "%s", rname);
+			ok = ok && 0 == connect(sv[1], (struct sockaddr *)&sa, sizeof(sa)) && 0 == connect(t->peer2, (struct sockaddr *)&sa, sizeof(sa));
+			unlink(rname); unlink(t->dg_name[0]); unlink(t->dg_name[1]);   /* the names stay bound, the directory entries are not needed */
+			if (!ok) { sim_violation("sim-limit", "cannot set up bound datagram sockets"); return; }
+			sim_fd_note_harness(t->peer2);
+			break;
+		}
 		if (0 != socketpair(AF_UNIX, SOCK_DGRAM | SOCK_NONBLOCK | SOCK_CLOEXEC, 0, sv)) { sim_violation("sim-limit", "socketpair failed"); return; }
 		break;
 	case K_ACCEPT: {
@@ -528,6 +571,12 @@ static void op_task(const item_t *it) {
 		uint16_t ev = (t->kind == K_RECV) ? TP_EV_READ : TP_EV_WRITE;
 		if (item_get(it, "sfio", 1)) rc = tp_task_create_start(tpt, (uintptr_t)t->fd, tp_task_sr_handler, t->tflags, ev, t->evfl, t->timeout_ms, 0, &t->buf, stream_cb, t, &t->task);
 		else {
+			if (item_get(it, "hsw", 0)) {
+				/* created for one handler, switched to another before the start (what a server does when it takes a
+				 * connection over from its accept stage): I/O events AND the timeout must reach the new handler */
+				rc = tp_task_create(tpt, (uintptr_t)t->fd, tp_task_notify_handler, t->tflags, t, &t->task);
+				if (0 == rc) { tp_task_tp_cb_func_set(t->task, tp_task_sr_handler); sim_probe("c16.handler_switched_before_start"); }
+			} else
 			rc = tp_task_create(tpt, (uintptr_t)t->fd, tp_task_sr_handler, t->tflags, t, &t->task);
 			if (0 == rc) { sim_probe("c16.start_without_scheduling"); t->starting = 1; rc = tp_task_start_ex(0, t->task, ev, t->evfl, t->timeout_ms, 0, &t->buf, stream_cb); t->starting = 0; }
 		}
@@ -576,7 +625,10 @@ static void op_peer(const item_t *it, const char *k) {
 			if (n > sizeof(tmp)) n = sizeof(tmp);
 			if (n < 1) n = 1;
 			for (size_t i = 0; i < n; i++) tmp[i] = pay(slot, (size_t)t->dg_sent * 257u + i);
-			if ((ssize_t)n == write(t->peer, tmp, n)) { t->dg_len[t->dg_sent++] = n; }
+			{
+				int from = t->dg_bound ? (int)(item_get(it, "from", 0) & 1) : 0;
+				if ((ssize_t)n == write(from ? t->peer2 : t->peer, tmp, n)) { t->dg_from[t->dg_sent] = (uint8_t)from; t->dg_len[t->dg_sent++] = n; }
+			}
 			sim_fd_activity();
 		} else if (t->kind == K_ACCEPT) {
 			struct sockaddr_un sa;
@@ -584,6 +636,16 @@ static void op_peer(const item_t *it, const char *k) {
 			if (c < 0) return;
 			memset(&sa, 0, sizeof(sa)); sa.sun_family = AF_UNIX; memcpy(sa.sun_path + 1, t->path, strlen(t->path));
 			if (0 == connect(c, (struct sockaddr *)&sa, (socklen_t)(sizeof(sa.sun_family) + 1 + strlen(t->path)))) t->conn_made++;
+			else { close(c); return; }
+			sim_fd_activity();
+			if (item_get(it, "steal", 0)) {
+				/* another acceptor on the same listening socket (a second process, say) takes the connection: the
+				 * task may be woken for nothing - it must go on exactly as before, inactivity timer included */
+				int s2;
+				sim_sleep_ns((uint64_t)item_get(it, "sns", 0), "peer.steal");
+				s2 = accept4(t->lfd, NULL, NULL, SOCK_NONBLOCK | SOCK_CLOEXEC);
+				if (s2 >= 0) { close(s2); t->conn_made--; sim_probe("c16.connection_taken_by_another_acceptor"); sim_fd_activity(); }
+			}
 			close(c);   /* the accepted side sees EOF; the harness only counts */
 			sim_fd_activity();
 		} else if (t->kind == K_SEND || t->kind == K_CONNECT) {
@@ -605,7 +667,7 @@ static void op_peer(const item_t *it, const char *k) {
 		}
 	} else if (0 == strcmp(k, "pclose")) {
 		int how = (int)item_get(it, "how", 0);
-		if (t->kind == K_ACCEPT || t->peer < 0 || t->peer_closed) return;
+		if (t->kind == K_ACCEPT || t->peer < 0 || t->peer_closed || t->dg_bound) return;
 		if (how == 1 && (t->kind == K_RECV || t->kind == K_NOTIFY)) { shutdown(t->peer, SHUT_WR); t->peer_closed = 1; t->peer_halfclosed = 1; sim_probe("c16.peer_half_close"); }
 		else if (how == 2 && t->kind != K_DGRAM) {
 			/* reset: close while unread data sits in the peer's receive queue */
@@ -696,8 +758,8 @@ static void gen_peer_script(plan_t *p, rng_t *r, int tier, int slot, int kind, i
 		} else dly = rng_chance(r, 400) ? 0 : (long long)rng_range(r, 1000, 8000000);
 		item_set(&op->it, "dly", dly);
 		if (kind == K_SEND || kind == K_CONNECT) { item_set(&op->it, "n", (long long)rng_range(r, 1, 1024)); item_set(&op->it, "all", rng_chance(r, 300)); }
-		else if (kind == K_DGRAM) item_set(&op->it, "n", (long long)rng_range(r, 1, 300));
-		else if (kind == K_ACCEPT) item_set(&op->it, "n", 1);
+		else if (kind == K_DGRAM) { item_set(&op->it, "n", (long long)rng_range(r, 1, 300)); item_set(&op->it, "from", (long long)rng_below(r, 2)); }
+		else if (kind == K_ACCEPT) { item_set(&op->it, "n", 1); if (rng_chance(r, 300)) { item_set(&op->it, "steal", 1); item_set(&op->it, "sns", (long long)rng_below(r, 40000)); } }
 		else {
 			static const int fr[] = { 1, 1, 2, 3, 7, 16, 64, 100, 255, 256, 257, 1000 };
 			long long f = fr[rng_below(r, 12)];
@@ -750,8 +812,10 @@ static void c16_gen(plan_t *p, rng_t *r, int tier) {
 		item_set(&op->it, "tr", (long long)tr);
 		item_set(&op->it, "cbs", (long long)rng_below(r, 1u << 30));
 		item_set(&op->it, "sfio", rng_chance(r, 700));
+		if (!item_get(&op->it, "sfio", 1) && rng_chance(r, 400)) item_set(&op->it, "hsw", 1);
 		if (kind == K_RECV && rng_chance(r, 400)) item_set(&op->it, "pre", (long long)rng_range(r, 1, 400));
 		if (kind == K_CONNECT) item_set(&op->it, "pending", rng_chance(r, 700));
+		if (kind == K_DGRAM) item_set(&op->it, "dgb", rng_chance(r, 500));
 		if (kind == K_CONNEX) {
 			static const int tmos[] = { 0, 2, 5, 20, 50 };
 			static const int rts[] = { 0, 0, 1, 3, 10 };
